@@ -98,8 +98,9 @@ def rule_r1(ctx):
                 tg = n.targets[0].elts if isinstance(n.targets[0], ast.Tuple) else [n.targets[0]]
                 vs = n.value.elts if isinstance(n.value, ast.Tuple) and isinstance(n.targets[0], ast.Tuple) else [n.value]
                 for t, v in zip(tg, vs):
-                    if isinstance(t, ast.Attribute) and t.attr in ("prev", "next") and isinstance(t.value, ast.Name):
-                        pairs.add((binds.get(t.value.id, t.value.id), t.attr, binds.get(norm(v), norm(v))))
+                    if isinstance(t, ast.Attribute) and t.attr in ("prev", "next") and norm(t.value) != "self":
+                        # the neighbour through a local alias (`prev.next = next_`) or written out (`self.prev.next = self.next`)
+                        pairs.add((binds.get(norm(t.value), norm(t.value)), t.attr, binds.get(norm(v), norm(v))))
         ok = pairs == {("self.prev", "next", "self.next"), ("self.next", "prev", "self.prev")}
     ctx.check("R1", "erase links the two neighbours to each other", ok, er, er.node,
               "erase does not set prev.next = next and next.prev = prev", how="link writes resolved through the local aliases")
